@@ -5,6 +5,7 @@ package props
 import (
 	"bytes"
 	"fmt"
+	"strings"
 	"testing"
 
 	"github.com/boombuler/barcode"
@@ -256,6 +257,15 @@ func TestC02Sweep(t *testing.T) {
 			}
 		})
 	})
+	// contents whose codeword count wraps a 16- or 17-bit counter back into the valid range
+	for _, k := range []int{1 << 16, 1<<16 + 3, 1<<16 + 1000, 1<<16 + 1558, 1 << 17, 1<<17 + 100} {
+		for _, c := range []DMCase{{Content: BStr(strings.Repeat("A", k))}, {Content: BStr(strings.Repeat("42", k))}, {Content: BStr(strings.Repeat("\x99", k/2))}} {
+			ct.guard(func() {
+				c02Account(st, c, checkDMRoundTrip(ct, c))
+				st.Eval()
+			})
+		}
+	}
 	// every byte value in five surroundings (between letters, between digits, alone, after one digit, doubled)
 	var bytesweep []DMCase
 	for b := 0; b < 256; b++ {
